@@ -82,6 +82,7 @@ def _it_arrow(tr, n, obj, args, argnodes):
 OTHER = '(g_name_class == 0)'
 UNIT = {
     'name': 'ninja_scope',
+    'need_fields': {'ManifestLoader::ManifestLoaderImpl::LookupContext': ['loader', 'decl', 'shellEscapeInAndOut']},
     'source': 'lib/Ninja/ManifestLoader.cpp',
     'dumps': ['ManifestLoaderImpl', 'ninja::Command', 'ninja::Rule'],
     'types': {'StringRef': 'strref', 'std::string': 'pstr', 'string': 'pstr', 'basic_string<char>': 'pstr', 'raw_ostream': 'struct ostream', 'llvm::raw_ostream': 'struct ostream'},
@@ -89,8 +90,8 @@ UNIT = {
                       (r'(llvm::)?StringMapEntry<.*>', 'struct smap_entry'), (r'(std::)?vector<(ninja::)?Node \*.*>', 'vec_nnode'), (r'(llbuild::)?(ninja::)?Node', 'struct nnode')],
     'by_value': ['strref', 'pstr'],
     'predefined_structs': ['smap', 'smap_entry', 'ostream', 'nnode'],
-    'no_translate': ['evalString', 'shellEscaped', 'getCurrentScope', 'lookupBinding', 'getNumExplicitInputs', 'getInputs', 'getOutputs', 'getParameters', 'getRule', 'getScreenPath', 'error'],
-    'struct_extra': {'Command': '  unsigned numExplicitInputs; vec_nnode inputs; vec_nnode outputs; struct smap parameters; struct Rule *rule;\n', 'Rule': '  struct smap parameters;\n'},
+    'no_translate': ['evalString', 'shellEscaped', 'getCurrentScope', 'lookupBinding', 'getNumExplicitInputs', 'getInputs', 'getOutputs', 'getParameters', 'getRule', 'getScreenPath', 'error', 'getRootScope'],
+    'struct_extra': {'Command': '  unsigned numExplicitInputs; vec_nnode inputs; vec_nnode outputs; struct smap parameters; struct Rule *rule;\n', 'Rule': '  struct smap parameters;\n', 'ManifestLoaderImpl': '  void *manifest;\n'},
     'calls': {
         'o:==:StringRef': _eq, 'o:==:@strref': _eq, 'o:<<:raw_ostream': _shl, 'o:<<:@struct ostream': _shl,
         'fn:shellEscaped': 'str_shell_escaped', 'm:ManifestLoader::ManifestLoaderImpl::evalString': _eval, 'fn:evalString': _eval,
@@ -99,7 +100,7 @@ UNIT = {
         'm:@vec_nnode::size': 'vec_nnode_size', 'o:[]:@vec_nnode': '(&$o->ptr[$0])', 'm:@struct nnode::getScreenPath': '$o->screenPath', 'm:Node::getScreenPath': '$o->screenPath',
         'm:@struct smap::find': ('smap_find', 'v'), 'm:@struct smap::end': 'smap_end', 'm:@struct smap::lookup': ('smap_lookup', 'v'), 'm:@struct smap::count': ('smap_count', 'v'),
         'm:@pstr::empty': '($o->len == 0)', 'm:@pstr::size': '($o->len)', 'm:@pstr::length': '($o->len)',
-        'm:ManifestLoader::ManifestLoaderImpl::getCurrentScope': 'loader_scope', 'm:Scope::lookupBinding': ('scope_lookup', 'v'),
+        'm:ManifestLoader::ManifestLoaderImpl::getCurrentScope': 'loader_scope', 'm:Scope::lookupBinding': ('scope_lookup', 'v'), 'm:*::getRootScope': 'manifest_root_scope',
     },
     'call_patterns': [(r'o:!=:iterator_facade_base<StringMap.*', _it_cmp('!=')), (r'o:==:iterator_facade_base<StringMap.*', _it_cmp('==')), (r'o:->:iterator_facade_base<StringMap.*', _it_arrow),
                       (r'o:!=:StringMap(Const)?Iterator.*', _it_cmp('!=')), (r'o:==:StringMap(Const)?Iterator.*', _it_cmp('==')), (r'o:->:StringMap(Const)?Iterator.*', _it_arrow),
@@ -115,15 +116,15 @@ UNIT = {
                          'context->decl->numExplicitInputs <= context->decl->inputs.len', 'g_name_class >= 0 && g_name_class <= 3',
                          'g_paths == 0 && g_seps == 0 && g_values == 0 && g_scope_lookups == 0 && g_evals == 0 && g_escaped_paths == 0'],
             'assigns': ['g_paths', 'g_seps', 'g_values', 'g_scope_lookups', 'g_evals', 'g_escaped_paths', 'g_sep_char', 'g_value_src', 'g_eval_template', 'g_scope_name',
-                        'g_eval_ctx', 'g_eval_lookup_is_build'],
+                        'g_eval_ctx', 'g_eval_lookup_is_build', 'g_scope_obj'],
             'ensures': [
                 # a build-level binding shadows everything else, whatever its value (also an empty one)
                 ('P:C17', '(%s && context->decl->parameters.hit) ==> (g_values == 1 && g_value_src == context->decl->parameters.entry.second.ptr && g_evals == 0 && g_scope_lookups == 0)' % OTHER),
                 # otherwise a rule-level binding is evaluated, with variables resolved in the context of THIS build statement
                 ('P:C17', '(%s && !context->decl->parameters.hit && context->decl->rule->parameters.hit) ==> (g_evals == 1 && g_eval_template == context->decl->rule->parameters.entry.second.ptr && '
                           'g_eval_ctx == (const void *)context && g_eval_lookup_is_build && g_values == 0 && g_scope_lookups == 0)' % OTHER),
-                # otherwise the enclosing scope, under the same name
-                ('P:C17', '(%s && !context->decl->parameters.hit && !context->decl->rule->parameters.hit) ==> (g_scope_lookups == 1 && g_scope_name == name.ptr && g_values == 0 && g_evals == 0)' % OTHER),
+                # otherwise the scope of the file being loaded (the CURRENT scope: a subninja file sees its own bindings first), under the same name
+                ('P:C17', '(%s && !context->decl->parameters.hit && !context->decl->rule->parameters.hit) ==> (g_scope_lookups == 1 && g_scope_name == name.ptr && g_scope_obj == (const void *)&g_current_scope_marker && g_values == 0 && g_evals == 0)' % OTHER),
                 ('P:C17', '%s ==> (g_paths == 0 && g_seps == 0)' % OTHER),
                 # $in / $in_newline: the explicit inputs only, separated by a space / a newline; $out: all outputs, space separated; quoted iff evaluating "command"
                 ('P:C17', '(g_name_class == 1 || g_name_class == 2) ==> (g_paths == context->decl->numExplicitInputs && g_seps == (g_paths == 0 ? 0 : g_paths - 1) && '
